@@ -46,6 +46,23 @@ def _install_stall_detector(ctx):
     signal.setitimer(signal.ITIMER_VIRTUAL, 60, 60)
 
 
+def _raised_in_repository(e):
+    """'file.py:function' when the innermost frame of the traceback lies in the repository under test, else None"""
+    try:
+        from .load import REPO
+
+        frames = traceback.extract_tb(e.__traceback__)
+        if not frames:
+            return None
+        last = frames[-1]
+        root = os.path.realpath(REPO) + os.sep
+        if os.path.realpath(last.filename).startswith(root):
+            return "%s:%s" % (os.path.basename(last.filename), last.name)
+    except Exception:
+        pass
+    return None
+
+
 def main():
     prop_id, spec_file, out_file = sys.argv[1:4]
     faulthandler.enable()
@@ -79,9 +96,16 @@ def main():
         # a call into the code under test burned four minutes of CPU time without completing a single evaluation: it does not
         # terminate (or is absurdly slow) - a verdict about the code, not a harness failure
         ctx.violation("operation_makes_no_progress_for_240_cpu_seconds", {"innermost_repository_frame": e.args[0] if e.args else "?"}, {"kind": "stall", "shard": job["name"]})
-    except BaseException as e:  # harness failure, not a verdict
-        status = "error"
-        err = "".join(traceback.format_exception(type(e), e, e.__traceback__))[-4000:]
+    except BaseException as e:
+        where = _raised_in_repository(e)
+        if where is not None and isinstance(e, Exception) and not isinstance(e, MemoryError):
+            # an exception raised INSIDE the code under test escaped at a place where the workload expects none (expected refusals
+            # are caught where they are expected, and the unchanged tree runs this workload to the end): the code under test fails
+            # on an input of the property's domain - a verdict about the code, not a harness failure
+            ctx.violation("workload_stopped_by_exception_from_the_code_under_test:%s:%s" % (type(e).__name__, where), {"exc": repr(e)[:300], "traceback_tail": "".join(traceback.format_exception(type(e), e, e.__traceback__))[-1500:]}, {"kind": "rerun_shard", "shard": job["name"]})
+        else:  # harness failure, not a verdict
+            status = "error"
+            err = "".join(traceback.format_exception(type(e), e, e.__traceback__))[-4000:]
     if cov is not None:
         cov.stop()
         cov.save()
